@@ -208,7 +208,16 @@ class SpecEval:
         if sp is not None:
             sname, se = sp
             i, f = w.field_index(sname, fname)
-            return SV(self.heap.get(('f', sname, fname))[v.t], f['type'])
+            val = self.heap.get(('f', sname, fname))[v.t]
+            if not self.bound and w.prog.kind(f['type']) in ('slice', 'ptr', 'map'):
+                # type safety of the heap: what a field holds is a well-typed value of the state it is read in
+                from .symex import well_typed
+                try:
+                    for fact in well_typed(self.V, self.heap, val, f['type']):
+                        self.V.add_hyp(fact)
+                except OutOfSubset:
+                    pass
+            return SV(val, f['type'])
         if ty in w.prog.types and w.prog.kind(ty) == 'struct':
             i, f = w.field_index(ty, fname)
             return SV(w.struct_get(ty, v.t, i), f['type'])
